@@ -24,29 +24,33 @@ CHECKS = {
         "universal over h.", "DESIGN.md 3/C01",
         "Butcher's theorem and the local->global convergence theorem are the trusted mathematical base; RadauIIA19 orders 11..19 via simplifying assumptions B,C,D."),
     "C02": _entry("other",
-        "Every RK/splitting class is executed symbolically on (t, h != 0 of either sign, y) with a right-hand side returning fresh symbols per call; per call z3 decides "
-        "that the i-th stage is evaluated at (t + c_i h, y + h sum a_ij K_j), the increment is h sum b_i K_i, stage_values hold K, two consecutive calls; splitting "
-        "schemes: the stated drift/kick composition; implicit: the real algebraic_system equals K - f(...), the accepted increment is that of the returned root and "
-        "a step is never accepted unless the last stage solve reported success and prec < tol (else FailedToMeetTolerances after 64 retries).", "DESIGN.md 3/C02",
+        "Every RK/splitting class is executed symbolically on (t, h != 0 of either sign, y). Explicit classes: congruent uninterpreted rhs, the oracle evaluates f itself at the defining "
+        "stage points: stored slope K_i = f(t + c_i h, y + h sum a_ij K_j), increment = h sum b_i K_i (independent of how many evaluations are made; a stale cached slope is a different "
+        "symbol); histories: consecutive calls and a call whose first trial is rejected and whose retry is interrupted by a fault, then repeated. Splitting schemes: the stated drift/kick "
+        "composition; implicit: the real algebraic_system equals K - f(...), the accepted increment is that of the returned root, the accepted step has the sign of h and is not longer, "
+        "and a step is never accepted unless the last stage solve reported success and prec < tol (else FailedToMeetTolerances after 64 retries).", "DESIGN.md 3/C02, 6.4",
         "optimizer.nonlinear_roots replaced by the verdict_root contract stub; embedded pairs use the ctrl stub."),
     "C03": _entry("other",
         "OdeSystem.__init__/integrate run symbolically with t0, tf, dt0 and later targets as arbitrary reals (any sign, either direction, dt larger or smaller than the span); "
         "all feasible paths within N steps: first row (t0,y0), paired rows, strictly monotone toward the target, no overshoot, ends within 64 eps*scale of the target, "
-        "status completed, termination within the step bound; one call and sequences of integrate(t) calls incl. reversal and already-there.", "DESIGN.md 3/C03",
+        "status completed, termination within the step bound, and every recorded row advances time AND state by the increment of the same accepted attempt (pairing); one call and "
+        "sequences of integrate(t) calls incl. reversal and already-there.", "DESIGN.md 3/C03",
         "|tf-t0| <= N*|dt0| with N = 3 (quick) / 5 (thorough)."),
     "C04": _entry("other",
-        "Same symbolic runs restricted to |dt0| <= span: every recorded step but the last has magnitude |dt0| and none is longer (implicit: shorter only after a failed stage solve); "
+        "Same symbolic runs restricted to |dt0| <= span: every recorded step but the last (of each call; one call and two consecutive calls) has magnitude |dt0| and none is longer "
+        "(implicit: shorter only after a failed stage solve); "
         "product runs in one path: span shifted by a symbolic constant and the time-reflected problem integrated backward give term-identical states (autonomous congruent rhs).",
         "DESIGN.md 3/C04", "Known finding c04.implicit_step_growth is reported as KNOWN-FINDING."),
     "C05": _entry("other",
         "Partial claim (second sentence): the real retry loop with h of either sign - every retry strictly smaller and same sign, result is the last attempt, all-reject raises "
-        "FailedToMeetTolerances (FailedIntegration through OdeSystem, no row recorded); the REAL update_timestep / implicit_aware_update_timestep decided in isolation with "
+        "FailedToMeetTolerances (FailedIntegration through OdeSystem, no row recorded); through OdeSystem a recorded row is exactly the last (accepted) attempt from its start time; the REAL update_timestep / implicit_aware_update_timestep decided in isolation with "
         "axiomatised pow/arctan: corr in (0.2, 2.6), redo <=> corr < 0.81, accept => scaled error <= 1, error >= 4 => redo; Richardson re-entry shrinks and terminates.",
         "DESIGN.md 3/C05", "First sentence (global error proportional to tolerances) is NOT claimed: not solver-decidable with a useful bound."),
     "C06": _entry("other",
         "With dense output on, t0, tf, dt0 and a query q symbolic: sol(t_i) = y_i; the piece chosen by find_interval and find_interval_vec contains q for every q in the integrated "
         "range, both directions; pieces contiguous in step order with end values = recorded states and end slopes = f at the recorded states (congruent uninterpreted rhs: stale "
-        "slopes are caught); continuation in a second call; Richardson pieces cover the step.", "DESIGN.md 3/C06", "O(h^4) interpolation error bound is outside the claim."),
+        "slopes are caught); continuation in a second call; histories with non-terminal and terminal events (rolled-back step) and continuation after the stop through the real event "
+        "section of integrate (events oracle); Richardson pieces cover the step.", "DESIGN.md 3/C06", "O(h^4) interpolation error bound is outside the claim."),
     "C07": _entry("other",
         "Assume/guarantee: (A) the REAL handle_events on a symbolic step of either direction with 1-3 affine event functions (symbolic slope and root, directions and terminal flags "
         "enumerated) and the root finder replaced by the bracket_root stub: every returned event had success, lies in the bracket within sqrt(eps)*|step| of the true root, crosses in a "
@@ -59,25 +63,28 @@ CHECKS = {
         "within eps^0.7 is recorded - true_positive filter, duplicate filter (events never merged) and interpolant pruning with dense_output=False, both directions.",
         "DESIGN.md 3/C07-C09", "End-to-end completeness additionally needs the root-finder guarantee of C14 (known finding c14.absolute_residual_success)."),
     "C09": _entry("other",
-        "REAL integrate with the events oracle and mixes of terminal/non-terminal events, both directions, finite and infinite tf: last time = terminal root, nothing beyond, strictly "
+        "(A) REAL handle_events with >= 2 events, at least one terminal: only events up to the first terminal one along the direction of integration are returned, the list ends at "
+        "the EARLIEST located terminal crossing; (B) REAL integrate with the events oracle and mixes of terminal/non-terminal events, both directions, finite and infinite tf: last time = terminal root, nothing beyond, strictly "
         "monotone rows, last reported event is the terminal one, no detector call afterwards, status terminated-by-event = success, callbacks once per outer step; dense output one "
         "piece per recorded step, contiguous from t0 to the root with end slopes = f at recorded states; a following integrate() continues monotonically to tf.",
         "DESIGN.md 3/C07-C09"),
     "C10": _entry("other",
         "Hamiltonian uninterpreted: the real ExplicitSymplecticIntegrator.__call__ on dual numbers with a right-hand side of arbitrary separable Hamiltonian structure: whole-step "
         "M^T J M = J as a polynomial identity and per-stage form (each stage factor symplectic, real update has the drift/kick form) for 1-2 d.o.f.; step(h);step(-h) = identity with "
-        "congruent T'(p), V'(q); kick masks by default, constructor and set_kick_vars; implicit symplectic classes: b_i a_ij + b_j a_ji = b_i b_j, symmetry, R(z)R(-z) = 1, real step "
+        "congruent T'(p), V'(q) on fresh integrators AND on one integrator object through two round trips from different states (the step map must not depend on the object's history); kick masks by default, constructor and set_kick_vars; implicit symplectic classes: b_i a_ij + b_j a_ji = b_i b_j, symmetry, R(z)R(-z) = 1, real step "
         "= R on the rotation block.", "DESIGN.md 3/C10", "Closure of the symplectic group and the Sanz-Serna/Lasagni tableau condition are the trusted mathematical base; energy drift is a consequence, not decided."),
     "C11": _entry("other",
         "For all 16 implicit classes, R = P/Q built at run time from the exact rational values of the float64 tableau entries: z3 proves |R(z)|^2 <= 1+1e-9 and det(I - zA) != 0 for ALL z "
         "with Re z <= 0 (two-variable queries for <= 3 stages; Hermite-Biehler interlacing certificate + axis bound + maximum modulus for every class incl. RadauIIA19); the real "
-        "RungeKuttaIntegrator.step on y'=lambda*y, a 2x2 rotation block and a diagonal pair with the exact-root stub satisfies Q(z)(y+dY) = P(z)y.", "DESIGN.md 3/C11",
+        "RungeKuttaIntegrator.step on y'=lambda*y, a 2x2 rotation block and a diagonal pair with the exact-root stub satisfies Q(z)(y+dY) = P(z)y; the full __call__ with a failed "
+        "first stage solve and an exactly solved retry keeps the direction of h and does not increase |y|.", "DESIGN.md 3/C11",
         "Slack 1e-9 on |R|^2 (rounded coefficients). Trusted base for RadauIIA19: Hermite-Biehler theorem, maximum-modulus principle."),
     "C12": _entry("fault_enumeration",
-        "Crash points enumerated exhaustively within the bound (every rhs-evaluation index / callback invocation of runs of <= N steps, three exception kinds, 5 method families), "
+        "Crash points enumerated exhaustively within the bound (every rhs-evaluation index / callback invocation / event-function evaluation of runs of <= N steps, four exception "
+        "kinds, 5 method families), "
         "each instance universal over t0, tf, dt0: FailedIntegration with the injected cause (KeyboardInterrupt as itself), status, recorded rows = prefix of the fault-free twin run, "
         "dense output one piece per recorded step, resume reaches tf with the prefix intact and pieces equal to the uninterrupted run, reset() restores a pristine system.",
-        "DESIGN.md 3/C12", "N = 2 (quick) / 3 + two successive faults (thorough). Event-function faults are exercised in the C07-C09 harness."),
+        "DESIGN.md 3/C12", "N = 2 (quick) / 3 + two successive faults (thorough). Event-function faults run the real handle_events with the root finder stubbed. Known finding c12.valueerror_swallowed_by_retry."),
     "C13": _entry("other",
         "All operation sequences up to the length bound over {integrate, integrate(T), set dt/tol/method, set_kick_vars, integrate with an event, faulting integrate, reset} with symbolic "
         "arguments: integrate() at the target is a no-op; reset() restores (t0,y0), no events, empty dense output, dt0, nfev 0, status 0 and the next run (rows and dense pieces) is "
@@ -109,7 +116,8 @@ CHECKS = {
         "DESIGN.md 3/C18", "Parity with scipy.integrate.solve_ivp is not applicable to this technique (independent compiled numerics)."),
     "C19": _entry("other",
         "On symbolic trajectories (forward, backward, continued, ctrl-adaptive): every integer index in [-len-2, len+2] has sequence semantics, iteration yields each row once in order, "
-        "a lookup at an arbitrary real time returns a recorded sample nearest in time (dense: (q, sol(q))), a slice spanning the run returns the run.", "DESIGN.md 3/C19"),
+        "a lookup at an arbitrary real time returns a recorded sample nearest in time (dense: (q, sol(q))), a slice spanning the run returns the run; also for runs AGAINST the "
+        "direction of the constructor's span.", "DESIGN.md 3/C19"),
     "C20": _entry("other",
         "Independent counters inside the user rhs / Jacobian: on every feasible path of explicit, FSAL+rejection, splitting, implicit (user Jacobian and real finite-difference "
         "JacobianWrapper) runs nfev equals the completed user calls at every callback and at the end, also after faults and reset; callbacks in the given order, after the new row "
